@@ -29,12 +29,13 @@ var c13Space = mkSpace("logout", []fieldDim{
 	{"NameID", []string{"", "absent"}},
 	{"Session", []string{"", "two"}},
 	{"Relay", []string{"", "none"}},
+	{"Dirty", []string{"", "failed-writes"}},
 	{"Transport", []string{"", "redirect-enc", "redirect", "post-deflate"}},
 	{"Payload", []string{"", "bad-base64", "ill-formed", "root-authn", "empty"}},
 	{"SLO", []string{"", "none", "two", "redirect-first", "three", "query-url", "special-url"}},
 	{"Dest", []string{"", "absent", "foreign"}},
 	{"Prefix", []string{"", "default", "odd"}},
-	{"Lookup", []string{"", "error", "error-ctx-deadline", "error-ctx-canceled"}},
+	{"Lookup", []string{"", "error", "error-ctx-deadline", "error-ctx-canceled", "client-gone"}},
 })
 
 func loFromVec(s *devx.Space, vec []int) loP {
